@@ -193,6 +193,34 @@ def tree_json(node):
             "exposed": [{"name": nm, "c": i, "p": p} for (nm, i, p) in node.expose]}
 
 
+def ptree_json(node):
+    """the parametric hierarchy as the request of the driver op `phsolve` (rename tables as (new, old) pairs in listing order)"""
+    if node.kind == "leaf":
+        k = len(node.pins)
+        zero = [[(Fraction(0), Fraction(0))] * k for _ in range(k)]
+        return {"leaf": {"pins": list(node.pins), "idx": list(node.idx), "S0": gen.mat_json(node.S0),
+                         "S1": gen.mat_json(node.S1 if node.S1 is not None else zero),
+                         "param": node.param or "__none__", "dflt": [gen.frac_str(Fraction(node.default)), "0/1"]}}
+    return {"children": [[[[new, old] for old, new in rho.items()], ptree_json(ch)] for ch, rho in node.children],
+            "links": [{"a": i, "p": p, "b": j, "q": q} for (i, p, j, q) in node.links],
+            "exposed": [{"name": nm, "c": i, "p": p} for (nm, i, p) in node.expose]}
+
+
+def model_psolve(ctx, node, kw, names):
+    """`top.solve(**kw)` through the model (PNet.psolve); returns (outcome, T ordered like `names`, defaults dict)"""
+    ans = ctx.driver.ask({"op": "phsolve", "tree": ptree_json(node),
+                          "kw": [[k, [gen.frac_str(Fraction(v)), "0/1"]] for k, v in kw.items()]})
+    dfl = {k: float(Fraction(v[0])) for k, v in ans.get("defaults", [])}
+    if "T" not in ans:
+        return ans.get("err", "?"), None, dfl
+    if sorted(ans["pins"]) != sorted(names):
+        return f"pins {ans['pins']}", None, dfl
+    n = len(names)
+    T = gen.json_mat_np([z for row in ans["T"] for z in row], n, n) if n else np.zeros((0, 0), complex)
+    order = [ans["pins"].index(nm) for nm in names]
+    return "ok", (T[np.ix_(order, order)] if n else T), dfl
+
+
 def depth(node):
     if node.kind == "leaf":
         return 0
